@@ -343,11 +343,16 @@ def _names_failures(limit=None):
              'link/new/y.gen', 'real/new/y.gen']
     fails, n = [], 0
     try:
-        for s1, s2 in itertools.permutations(spell, 2):
+        # absolute spellings, incl. a doubled leading slash ("$DESTDIR/$path" with DESTDIR=/) and a doubled inner one: each
+        # paired with the plain relative spelling, both orders ({P} is the project directory)
+        absolute = ['{P}/real/x.gen', '/{P}/real/x.gen', '{P}//link/x.gen', '/{P}/link/sub/../x.gen']
+        pairs = list(itertools.permutations(spell, 2)) + [(a, 'real/x.gen') for a in absolute] + [('real/x.gen', a) for a in absolute]
+        for s1, s2 in pairs:
             if limit is not None and n >= limit:
                 break
             n += 1
             proj = os.path.join(work, 'p%d' % n)
+            s1, s2 = s1.replace('{P}', proj), s2.replace('{P}', proj)
             for d in ('real/sub', 'a', 'b/deep'):
                 os.makedirs(os.path.join(proj, d))
             os.symlink('real', os.path.join(proj, 'link'))
@@ -357,7 +362,7 @@ def _names_failures(limit=None):
 
             def canon(sp):
                 d, b = os.path.split(sp)
-                return os.path.relpath(os.path.join(os.path.realpath(os.path.join(proj, d)), b), proj)
+                return os.path.relpath(os.path.join(os.path.realpath(os.path.join(proj, d)), b), os.path.realpath(proj))
             ok = True
             for sp in (s1, s2):
                 r = subprocess.run(['redo', '--no-log', sp], cwd=proj, env=env, capture_output=True, text=True, timeout=60)
@@ -740,7 +745,7 @@ def conformance(prop, unit_names, pins_changed, labels_props):
             out.append(dict(oid='queries/ood_list/ood.lists_every_definitely_stale_target', msg='clause fails on the real binaries for a concrete history (bounded probe ood, %d histories)' % r[1],
                             where=REPO + '/src/bin/redo/ood.rs:run', site=None, text=hits[0]['clause'], rendered=json.dumps(hits[:6], indent=1),
                             inputs=[h['input'] for h in hits], fn='ood_list', label='ood.lists_every_definitely_stale_target', props=['C17']))
-    if prop in ('C15', 'C07', 'C06') and ('relpath' in unit_names or any(p.endswith('::from_name') or p.endswith('::realdirpath') for p in pins_changed)):
+    if prop in ('C15', 'C07', 'C06') and ('relpath' in unit_names or 'records' in unit_names or any(p.endswith('::from_name') or p.endswith('::realdirpath') for p in pins_changed)):
         r = _names_failures()
         if r and r[0]:
             hits = r[0]
